@@ -61,6 +61,29 @@ func CatalogueForms() []Form {
 		{ID: "go_literal_with_args", Family: "catalogue", Sync: true, Code: "wg := new(sync.WaitGroup)\nwg.Add(1)\ngo func(z uint64) {\n\t*p = z\n\twg.Done()\n}(x + 1)\nwg.Wait()"},
 		{ID: "go_literal_joined", Family: "catalogue", Sync: true, Code: "wg := new(sync.WaitGroup)\nwg.Add(1)\ngo func() {\n\t*p = x + 1\n\twg.Done()\n}()\nwg.Wait()"},
 		{ID: "go_named_joined", Family: "catalogue", Sync: true, Decls: "func bumpDone(p *uint64, wg *sync.WaitGroup) {\n\t*p = *p + 1\n\twg.Done()\n}\n", Code: "wg := new(sync.WaitGroup)\nwg.Add(1)\ngo bumpDone(p, wg)\nwg.Wait()"},
+		// h7 probes of the unchanged tree
+		{ID: "waitgroup_value", Family: "catalogue", Sync: true, Code: "var wgv sync.WaitGroup\nwgv.Add(1)\nwgv.Done()\nwgv.Wait()\nr = x"},
+		{ID: "mutex_literal", Family: "catalogue", Sync: true, Code: "mq := &sync.Mutex{}\nmq.Lock()\nr = x\nmq.Unlock()"},
+		{ID: "rwmutex_new", Family: "catalogue", Sync: true, Code: "rw := new(sync.RWMutex)\nrw.Lock()\nr = x\nrw.Unlock()"},
+		{ID: "cond_locker_field", Family: "catalogue", Sync: true, Code: "mq := new(sync.Mutex)\ncq := sync.NewCond(mq)\ncq.L.Lock()\nr = x\ncq.L.Unlock()"},
+		c("redeclare_define_var", "var n uint64 = 3\nqa, n := twoU(4)\nr = qa + n"),
+		c("redeclare_define_captured", "qa, qb := twoU(1)\nfq := func() uint64 { return qb }\nqc, qb := twoU(10)\nr = fq() + qa + qc"),
+		c("redeclare_define_plain", "qa, qb := twoU(1)\nqc, qb := twoU(10)\nr = qa + qb + qc"),
+		c("funclit_named_result", "fq := func() (n uint64) {\n\treturn\n}\nr = fq() + 1"),
+		c("funclit_named_results_two", "fq := func(k uint64) (v uint64, ok bool) {\n\tif k == 0 {\n\t\treturn\n\t}\n\treturn k, true\n}\nqv, qok := fq(x)\nr = qv\nrb = qok"),
+		cd("global_map_var", "var gtable = make(map[uint64]uint64)\n", "gtable[1] = 7\nr = gtable[1]"),
+		cd("global_cell_var", "var gcell = new(uint64)\n", "*gcell = *gcell + 1\n*gcell = *gcell + 1\nr = *gcell"),
+		cd("global_call_var", "var gcalled = twoUfirst(3)\n\nfunc twoUfirst(x uint64) uint64 {\n\treturn x + 1\n}\n", "r = gcalled"),
+		cd("global_const_expr_var", "const gk uint64 = 4\n\nvar gfromconst uint64 = gk + 1\n", "r = gfromconst"),
+		c("elided_ptr_literal", "ps := []*S2{{a: 4}}\npq := ps[0]\npq.a = pq.a + 1\nr = ps[0].a"),
+		c("inferred_empty_interface", "var ifq interface{}\nifq = x\nifs := []interface{}{}\nift := append(ifs, ifq)\nr = uint64(len(ift))"),
+		c("signed_difference_cmp", "rb = int(x)-int(y) < 0"),
+		c("string_less", "rb = s < \"b\""), c("string_ge", "rb = s >= \"ab\""),
+		c("signed_shift", "r = uint64((int(x) - int(y)) >> 1)"), c("signed_rem", "r = uint64((int(x) - int(y)) % 3)"),
+		c("signed_len_cmp", "rb = len(xs) < 8"), c("signed_len_sub_cmp", "rb = len(xs)-8 < 0"),
+		c("signed_quotient", "r = uint64((int(x) - int(y)) / 2)"),
+		c("range_map_delete_rounds", "m[1] = 1\nm[2] = 2\nm[3] = 3\nvar cnt uint64\nfor range m {\n\tfor k := range m {\n\t\tdelete(m, k)\n\t}\n\tcnt = cnt + 1\n}\nr = cnt"),
+		c("range_map_delete", "for k := range m {\n\tdelete(m, k)\n}\nr = uint64(len(m))"),
 		{ID: "mutex_value", Family: "catalogue", Sync: true, Code: "var mu sync.Mutex\nmu.Lock()\nr = x\nmu.Unlock()"},
 		{ID: "mutex_trylock", Family: "catalogue", Sync: true, Code: "mu := new(sync.Mutex)\nrb = mu.TryLock()"},
 		c("multi_define_values", "u, v := x, y\nr = u + v"), c("swap_assign", "a, r = y, a"),
